@@ -41,6 +41,7 @@ type Case struct {
 	Channels   []string   `json:"channels"` // run: raw stdin files split
 	Chunks     []int      `json:"chunks"`   // stdin chunk sizes, cyclic; empty = one write
 	TrailingNL bool       `json:"trailing_newline"`
+	FlagForm   int        `json:"flag_form,omitempty"`  // how the boolean feature flag is spelled on the command line
 	LeadingWS  string     `json:"leading_ws,omitempty"` // JSON white space in front of the stdin payload (a heredoc, echo " $X")
 	FileName   string     `json:"file_name"`
 	Split      []string   `json:"split,omitempty"` // channel of script, variables, balances, metadata in the "split" configuration
@@ -468,10 +469,24 @@ func executeRun(c Case, bin, dir string, res *Result) {
 		res.Probes["run_payload_over_64KiB"]++
 	}
 	flagArgs := []string{"--output-format", "json"}
+	hasOD := false
 	for _, f := range c.In.Flags {
 		if f == gen.FlagOverdraft {
-			flagArgs = append(flagArgs, "--"+gen.FlagOverdraft)
+			hasOD = true
 		}
+	}
+	// a boolean flag can be written in several ways; saying "false" is not giving it
+	switch {
+	case hasOD && c.FlagForm%3 == 1:
+		flagArgs = append(flagArgs, "--"+gen.FlagOverdraft+"=true")
+	case hasOD:
+		flagArgs = append(flagArgs, "--"+gen.FlagOverdraft)
+	case c.FlagForm%3 == 1:
+		flagArgs = append(flagArgs, "--"+gen.FlagOverdraft+"=false")
+		res.Probes["feature_flag_given_as_false"]++
+	case c.FlagForm%3 == 2 && c.FlagForm%2 == 0:
+		flagArgs = append([]string{"--" + gen.FlagOverdraft + "=0"}, flagArgs...)
+		res.Probes["feature_flag_given_as_false"]++
 	}
 	write := func(name, content string) string {
 		p := filepath.Join(dir, name)
@@ -813,6 +828,7 @@ func genCase(r *rand.Rand) Case {
 		c.Chunks = []int{-2} // descriptor 0 is a socket
 	}
 	c.TrailingNL = r.IntN(2) == 0
+	c.FlagForm = r.IntN(6)
 	c.PipeFiles = r.IntN(8) == 0
 	if r.IntN(5) == 0 {
 		c.LeadingWS = core.Pick(r, []string{" ", "\n", "\t", "\r\n", "  \n  "})
